@@ -105,7 +105,7 @@ Definition do_close (hm : bool) (s : sock) (x : st) : st * list out :=
 Definition on_read (hm : bool) (s : sock) (r : rres) (x : st) : st * list out :=
   if negb (mem s x.(clients)) then (x, []) else
   match r with
-  | RData (_ :: _ as d) => (x, [OCall (CRecv s r); OEv (ERead s d)])
+  | RData ((_ :: _) as d) => (x, [OCall (CRecv s r); OEv (ERead s d)])
   | RData [] | REof => let '(x', o) := do_close hm s x in (x', OCall (CRecv s r) :: o)
   | RWould => (x, [OCall (CRecv s r)])
   | RErr => let '(x', o) := do__close hm s x in (x', OCall (CRecv s r) :: OEv (EError s) :: o)
@@ -203,7 +203,7 @@ Definition read_of (s : sock) (o : out) : list (list N) :=
   match o with OEv (ERead s' d) => if Nat.eqb s s' then [d] else [] | _ => [] end.
 Definition reads (s : sock) (os : list out) := flat_map (read_of s) os.
 Definition recvd_of (s : sock) (o : out) : list (list N) :=
-  match o with OCall (CRecv s' (RData (_ :: _ as d))) => if Nat.eqb s s' then [d] else [] | _ => [] end.
+  match o with OCall (CRecv s' (RData ((_ :: _) as d))) => if Nat.eqb s s' then [d] else [] | _ => [] end.
 Definition recvd (s : sock) (os : list out) := flat_map (recvd_of s) os.
 
 Definition is_disc (s : sock) (o : out) : bool :=
@@ -246,7 +246,7 @@ Definition c_drained (x : cst) : cst * list cev :=
 Definition cstep (x : cst) (i : cstim) : cst * list cev :=
   match i with
   | KConnect ok => if ok then (cmk true x.(pending) x.(closeflag), [KConnected]) else (x, [])
-  | KRead (RData (_ :: _ as d)) => (x, [KData d])
+  | KRead (RData ((_ :: _) as d)) => (x, [KData d])
   | KRead (RData []) | KRead REof => c_close x
   | KRead RWould => (x, [])
   | KRead RErr => let '(x', o) := c__close x in (x', KErr :: o)
